@@ -218,6 +218,12 @@ def _dem(strategy):
     return demand_of(strategy)
 
 
+def monitor_us(t):
+    from .monitor import _us
+
+    return _us(t)
+
+
 def reader_check(ctx, parsed, graphs, fin_graphs):
     from data import CSVReader
 
@@ -277,6 +283,36 @@ def reader_check(ctx, parsed, graphs, fin_graphs):
         if (s.state == "CANCELLED") != bool(rt.cancelled):
             ctx.violate("C08", "reader_cancel_flag", f"reader: {s.uname} cancelled={rt.cancelled}, state "
                         f"{s.state}", {})
+    # what the reader derives from the remaining row types: skips, deadline, miss flag
+    skips = {}
+    known_to_reader = set()  # the reader creates a task at its TASK_RELEASE row: earlier skips have no task yet
+    for r in parsed:
+        if len(r) > 7 and r[1] == "TASK_RELEASE":
+            known_to_reader.add(r[7])
+        if len(r) > 5 and r[1] == "TASK_SKIP":
+            if r[5] in known_to_reader:
+                skips.setdefault(r[5], []).append(int(r[0]))
+            else:
+                ctx.probe("reader_skip_before_release_row")
+    for s in ctx.shadows.values():
+        rt = tasks.get(s.task.id)
+        if rt is None:
+            continue
+        want = skips.get(s.task.id, [])
+        if want:
+            ctx.probe("reader_task_with_skips")
+        if list(getattr(rt, "skipped_times", [])) != want:
+            ctx.violate("C08", "reader_skipped_times",
+                        f"reader: {s.uname} skipped_times={list(getattr(rt, 'skipped_times', []))[:6]}, the trace has "
+                        f"TASK_SKIP rows for it at {want[:6]}", {"reader_has_none": not getattr(rt, "skipped_times", [])})
+        dl = monitor_us(s.task.deadline)
+        if dl is not None and getattr(rt, "deadline", None) is not None and int(rt.deadline) != dl:
+            ctx.violate("C08", "reader_deadline", f"reader: {s.uname} deadline {rt.deadline}, task has {dl}", {})
+        if s.finishes and s.finish_time is not None and dl is not None:
+            if bool(getattr(rt, "missed_deadline", False)) != (s.finish_time > dl):
+                ctx.violate("C08", "reader_missed_deadline_flag",
+                            f"reader: {s.uname} missed_deadline={rt.missed_deadline}, finished {s.finish_time}, "
+                            f"deadline {dl}", {})
     for g in fin_graphs:
         tg = sim.task_graphs.get(g)
         if tg is None or not tg.was_completed:
